@@ -2,12 +2,67 @@
 
 Every all-'e' batch pushed on the message stack is permuted (seeded) through the documented
 init_message_stack extension point; each permuted run is judged by Semantics.tla (Layer A) and compared
-with the unpermuted run."""
-from .. import progs, semcheck
+with the unpermuted run.
+
+Layer B: spec/Engine.tla (stage 1: acyclic propositional programs, buffered mode) models the engine's main loop message by
+message; TLC checks ResultCorrect / TableSound for every program of the family, every query sequence and EVERY order of
+every sibling batch.  Every terminal behaviour TLC explored is replayed on the real engine with the same schedule and
+compared message by message (kind, predicate, pointer, result node, is_last), key by key, node table by node table.  A
+difference is drift; the recorded real result is then judged by Layer A (JudgeEngine.tla)."""
+import json
+
+from .. import enginemodel, pl, progs, semcheck, tlc
 from . import common
 
 
+def engine_model(ctx, cov):
+    cfgs = ["Engine_small.cfg"] if ctx.tier == "quick" else ["Engine_small.cfg", "Engine_fifo.cfg", "Engine_big.cfg"]
+    ecov, diffs, H = enginemodel.replay(ctx, cfgs[1:], "Engine_export.cfg" if ctx.tier == "quick" else "Engine_export_big.cfg",
+                                        timeout=ctx.pick(1200, 7200))
+    cov.update(ecov)
+    cov["traces_validated_against_impl"] = ecov["spec_behaviours_replayed_on_impl"]
+    if diffs:
+        cases = []
+        for i, (h, o, d) in enumerate(diffs):
+            if i < 3:
+                print("DRIFT property=C03 Engine.tla and StackBasedEngine disagree on\n%squeries %s schedule %s: %s" % (
+                    enginemodel.text_of(h["prog"]), h["queries"], h["sched"], d))
+            if o.get("crash"):
+                ctx.violation({"clause": "crash", "error": o.get("error", ""), "site": o.get("site", ""), "level": "engine-model"},
+                              "%squeries %s schedule %s: %s" % (enginemodel.text_of(h["prog"]), h["queries"], h["sched"], d),
+                              {"engine_case": {"prog": h["prog"], "queries": h["queries"], "sched": h["sched"]}})
+                continue
+            # atom identities of the real formula are database node ids: rename them to the fact names in order of first use
+            facts = [c["h"] for c in h["prog"] if c["f"]]
+            seen = []
+            for m in o["log"]:
+                if m["t"] == "e" and m["k"] == "fact" and m["p"] not in seen:
+                    seen.append(m["p"])
+            nodes, k = [], 0
+            for n in o["nodes"]:
+                n = dict(n)
+                if n["t"] == "atom":
+                    n["id"] = seen[k] if k < len(seen) else "?"
+                    k += 1
+                nodes.append(n)
+            cases.append({"id": len(cases), "prog": h["prog"], "queries": h["queries"],
+                          "results": [r["key"] for r in o["results"]], "nodes": nodes, "_i": i})
+        J = tlc.judge_batch("JudgeEngine", [{k: v for k, v in c.items() if k != "_i"} for c in cases], nproc=ctx.nproc, tag="c03e")
+        for c in cases:
+            j = J[c["id"]]
+            h, o, d = diffs[c["_i"]]
+            if not j["ok"]:
+                ctx.violation({"clause": "engine-result-wrong-under-schedule", "level": "engine-model"},
+                              "%squeries %s schedule %s: the key given to %s does not mean the atom in world %s (%s)" % (
+                                  enginemodel.text_of(h["prog"]), h["queries"], h["sched"], j["q"], j["world"], d),
+                              {"engine_case": {"prog": h["prog"], "queries": h["queries"], "sched": h["sched"]}})
+    ctx.sample({"engine_behaviour": {"program": enginemodel.text_of(H[len(H) // 2]["prog"]), "queries": H[len(H) // 2]["queries"],
+                                     "schedule": H[len(H) // 2]["sched"], "messages": len(H[len(H) // 2]["log"])}})
+
+
 def run(ctx):
+    ecov = {}
+    engine_model(ctx, ecov)
     k = ctx.pick(6, 16)
     P = semcheck.gen_programs(ctx.seed * 7919 + 21, ctx.pick(120, 1500), "strat", p_edge=True)
     P += semcheck.gen_programs(ctx.seed * 7919 + 22, ctx.pick(40, 500), "negloop")
@@ -27,10 +82,22 @@ def run(ctx):
     J, runs, cov = common.sem_check(ctx, P, variants, level="exploration", post=post, write=False)
     cov["schedules_per_program"] = k
     cov["relational_comparisons"] = ctx.cov.get("relational", 0)
-    ctx.write_evidence("exploration", cov, assumptions=[
+    cov.update(ecov)
+    ctx.write_evidence("model_checking", cov, assumptions=[
+        "Engine.tla covers acyclic propositional programs in buffered mode (stage 1); cyclic, non-ground and AD programs are "
+        "covered by the Layer-A judgement of real runs under seeded permutations only",
         "schedule control: MessageFIFO subclass returned from StackBasedEngine.init_message_stack() permutes each "
         "batch of sibling 'e' messages (no source hook)"])
 
 
 def replay(ctx, path):
+    with open(path) as f:
+        d = json.load(f)
+    if "engine_case" in d.get("case", {}):
+        c = d["case"]["engine_case"]
+        print(enginemodel.text_of(c["prog"]), c["queries"], c["sched"])
+        print(json.dumps(pl.run_local("engine_trace", text=enginemodel.text_of(c["prog"]), queries=c["queries"], schedule=c["sched"]))[:3000])
+        ctx.evaluations = 1
+        ctx.write_evidence("exploration", {"evaluations": 1, "distinct_nontrivial": 0, "rule": "replay (prints)", "samples": [c]})
+        return
     common.sem_replay(ctx, path)
